@@ -139,6 +139,8 @@ def partitions(n):
 def run(ctx):
     from xfabsa import numeric as _N
     _N.alias_rule(ctx, 'C15', ['xfab/structure.py', 'xfab/sg.py'])
+    from props import sgobject
+    sgobject.rule(ctx, "C15", "multiplicity reads rot, trans and nsymop of this object")
     ctx.rule("lattice", "two images differing by integer / integer +- rounding / fraction per component (64 patterns): one site iff no fraction")
     ctx.rule("loop", "four operations, all 15 partitions into lattice-equivalence classes: count == number of classes")
     ctx.rule("image", "group {1, 3} on (1/3, 2/3, z): one site (R.x + t); the transposed action would give two")
@@ -192,32 +194,39 @@ def run(ctx):
     ctx.check(not miss and not extra, "C15:lattice:multiplicity", msg, where,
               sample={"patterns": 128, "near_integer_accepted": 54 - len(miss), "fraction_rejected": 74 - len(extra)})
     # ---- counting loop: all partitions of four images
+    # (one of the classes may be the class of the lattice points themselves -- the images of that class are integer vectors, as
+    #  for the position (1/2, 1/2, 0) under a C-centring: the value an untouched work array holds)
     bad, fnotes = [], []
+    nruns = 0
     for part in partitions(4):
-        bounds = dict(pos_bounds)
-        ops = []
-        for i, k in enumerate(part):
-            t = []
-            for c in range(3):
-                fa = "F%d%d" % (k, c)
-                bounds[fa] = (Fraction(10 + 10 * k, 100), Fraction(11 + 10 * k, 100))
-                ea = "e%d%d" % (i, c)
-                bounds[ea] = ERR
-                sign = 1 if (i + c) % 2 else -1
-                t.append(Rat.atom(fa) + Rat.const((i, -i, 2 * i)[c]) + (Rat.atom(ea) * sign if i else Rat.const(0)))
-            ops.append((I3, t))
-        s = Session(mod, lambda kw, ses, ops=ops: ses.group(ops), bounds)
-        kind, got = s.call(pos_atoms, sgno=Rat.const(1))
-        tolerances += s.tolerances
-        if kind != "ok" or got != max(part) + 1:
-            bad.append((part, got))
-            fnotes += getattr(s.ev, "float_notes", [])
+        for origin in [None] + list(range(max(part) + 1)):
+            bounds = dict(pos_bounds)
+            ops = []
+            for i, k in enumerate(part):
+                t = []
+                for c in range(3):
+                    fa = "F%d%d" % (k, c)
+                    bounds[fa] = (Fraction(10 + 10 * k, 100), Fraction(11 + 10 * k, 100))
+                    ea = "e%d%d" % (i, c)
+                    bounds[ea] = ERR
+                    sign = 1 if (i + c) % 2 else -1
+                    frac = Rat.atom(fa) if k != origin else -pos_atoms[c]
+                    t.append(frac + Rat.const((i, -i, 2 * i)[c]) + (Rat.atom(ea) * sign if i else Rat.const(0)))
+                ops.append((I3, t))
+            s = Session(mod, lambda kw, ses, ops=ops: ses.group(ops), bounds)
+            kind, got = s.call(pos_atoms, sgno=Rat.const(1))
+            nruns += 1
+            tolerances += s.tolerances
+            if kind != "ok" or got != max(part) + 1:
+                bad.append((part, got, origin))
+                fnotes += getattr(s.ev, "float_notes", [])
     ctx.check(not bad, "C15:loop:multiplicity",
-              "with the images in the classes %s (same number = equal modulo the lattice) multiplicity returns %s, not the number of "
-              "classes%s" % (bad[0][0] if bad else "", bad[0][1] if bad else "",
+              "with the images in the classes %s (same number = equal modulo the lattice%s) multiplicity returns %s, not the number of "
+              "classes%s" % (bad[0][0] if bad else "", ("; class %d consists of lattice points" % bad[0][2]) if bad and bad[0][2] is not None else "",
+                             bad[0][1] if bad else "",
                              (" (line %d: `%s` is %s in exact arithmetic, its binary floating-point value is truncated to %s)" % fnotes[0]) if fnotes else
                              ": every image must be compared with every representative and appended exactly when none matches"), where,
-              sample={"partitions_of_4": 15, "wrong": len(bad)})
+              sample={"partitions_of_4": 15, "runs": nruns, "wrong": len(bad)})
     # ---- six images: class sizes 3 and 6 occur (site symmetries of order 3 and 6); every shape of partition, and interleaved orders
     six = [(0, 0, 0, 0, 0, 0), (0, 0, 0, 0, 0, 1), (0, 0, 0, 0, 1, 1), (0, 0, 0, 1, 1, 1), (0, 0, 0, 0, 1, 2), (0, 0, 0, 1, 1, 2),
            (0, 0, 1, 1, 2, 2), (0, 0, 0, 1, 2, 3), (0, 0, 1, 1, 2, 3), (0, 0, 1, 2, 3, 4), (0, 1, 2, 3, 4, 5),
@@ -324,6 +333,8 @@ def run(ctx):
     ctx.assumptions += ["C04", "numpy mod/round/abs/sum/max semantics (interval versions in xfabsa/intervals.py)",
                         "the code treats operations uniformly: model groups of 2, 4 and 6 operations stand for any group",
                         "truncating conversions are folded in IEEE double arithmetic where that can be done faithfully (xfabsa/floatshadow.py)"]
+    from xfabsa import numeric as _NH
+    _NH.hazard_rule(ctx, 'C15')
     return ("multiplicity evaluated by E7 on model groups with tolerance tests decided in the interval domain: all 64 "
             "integer/rounding/fraction patterns of the difference of two images, all 15 partitions of four images into lattice "
             "classes and every shape of partition of six images (truncations folded in binary floating point), the special position on a 3-fold axis (R.x versus x.R), the tolerance window, the sg.sg arguments for six "
